@@ -110,8 +110,9 @@ class Thread:
 
 
 class AliasProgram:
-    def __init__(self, c):
+    def __init__(self, c, toplevel=False):
         self.c = c
+        self.toplevel = toplevel
         self.als = c["als"]
         self.pre = ["(define pret@@ #f)"]
         self.m = Thread()
@@ -174,6 +175,10 @@ class AliasProgram:
     def bind(self, t, j, X):
         kind = self.kind(j)
         T = self.thread(t)
+        if kind == "C" and getattr(self, "direct_capture", None):
+            T.add(f"(let ([c{j} (lambda () {self.direct_capture})])", ")")
+            self.direct_capture = None
+            return
         if kind == "G":
             self.pre.append(f"(define pg{j}@@ #f)")
             T.add(f"(set! pg{j}@@ {X})")
@@ -237,6 +242,9 @@ class AliasProgram:
             src = self.acc(a["i"])
             if a["a"] == "share":
                 X = src
+                if a["kind"] == "C" and self.kind(a["i"]) in ("L", "M", "P", "S", "K"):
+                    # the closure captures the source's OWN variable (not a copy in a fresh let)
+                    self.direct_capture = src
             elif a["a"] == "upd2":
                 X = a["tpl"].replace("$v", src).replace("$w", self.acc(a["i2"]))
             else:
@@ -289,11 +297,13 @@ class AliasProgram:
             self.w2m(payload=X, bind=j)
         if a["a"] == "upd" and a["via"] == "k":
             v = self.acc(j)
-            q1, q2 = a["pre"][0]["q"].replace("$v", v), a["pre"][1]["q"].replace("$v", v)
-            self.m.add(f"(emit (if (= (unbox pc{n}) 0) {q1} {q2}))")
-            self.m.add(f"(when (= (unbox pc{n}) 0) (set-box! pc{n} 1) (pk{n}x@@ {a['arg']}))")
+            q1, q3 = a["pre"][0]["q"].replace("$v", v), a["pre"][2]["q"].replace("$v", v)
+            self.m.add(f"(emit (if (< (unbox pc{n}) 2) {q1} {q3}))")
+            self.m.add(f"(when (< (unbox pc{n}) 2) (set-box! pc{n} (+ (unbox pc{n}) 1)) "
+                       f"(pk{n}x@@ (if (= (unbox pc{n}) 1) {a['alt']} {a['arg']})))")
             self.expect(a["pre"][0]["exp"], f"s{n}:via-k:first-pass:a{j}")
             self.expect(a["pre"][1]["exp"], f"s{n}:via-k:second-pass:a{j}")
+            self.expect(a["pre"][2]["exp"], f"s{n}:via-k:third-pass:a{j}")
 
     def render(self):
         c = self.c
@@ -335,6 +345,18 @@ class AliasProgram:
             body = self.m.text(tail).replace("@WORKER@", self.w.text(wtail))
         else:
             body = self.m.text(tail)
+        pre = []
+        for p in self.pre:
+            if p not in pre:
+                pre.append(p)
+        if self.toplevel:
+            # the same code as ONE top-level expression (no function frame, never compiled by the JIT)
+            if self.param:
+                j, X = self.param
+                body = f"((lambda (p{j}) {body}) {X})"
+            else:
+                body = f"(let () {body})"
+            return " ".join(pre) or "0", body
         if self.param:
             j, X = self.param
             define = f"(define (pmain@@ p{j}) {body})"
@@ -342,10 +364,6 @@ class AliasProgram:
         else:
             define = f"(define (pmain@@) {body})"
             call = "(pmain@@)"
-        pre = []
-        for p in self.pre:
-            if p not in pre:
-                pre.append(p)
         return " ".join(pre + [define]), call
 
 
@@ -365,15 +383,16 @@ def hist_tag(c):
     return ">".join(parts)
 
 
-def alias_case(c):
-    p = AliasProgram(c)
+def alias_case(c, toplevel=False):
+    p = AliasProgram(c, toplevel)
     pre, call = p.render()
     steps = [{"src": pre, "class": "ok", "emit": []},
              {"src": call, "class": "ok", "emit": p.exp},
              # a second activation: literals of the constant pool and engine state must be unchanged
              {"src": call, "class": "ok", "emit": p.exp}]
     h = hashlib.sha1(json.dumps([s["src"] for s in steps]).encode()).hexdigest()[:12]
-    return {"id": f"A-{h}", "fresh": False, "tag": f"alias|ty={c['ty']}|hist={hist_tag(c)}", "steps": steps,
+    return {"id": f"{'T' if toplevel else 'A'}-{h}", "fresh": False,
+            "tag": f"alias{'-toplevel' if toplevel else ''}|ty={c['ty']}|hist={hist_tag(c)}", "steps": steps,
             "meta": {"labs": p.lab, "fam": "alias", "nacts": len(c["acts"]),
                      "shared": any(a["a"] in ("share", "upd2") or a["via"] in ("g", "a", "m", "k") for a in c["acts"])}}
 
@@ -583,35 +602,59 @@ def selftest(r, cases, work):
     raise vlib.ToolError("self-test: no passing case with a shared object to mutate")
 
 
-PLAN = {
-    # (cfg, constant overrides); KEEP* are per-mille of the choices kept by the seeded thinning
-    "quick": [
-        ("loop", {"LOOPEVERY": "{3, 33}"}),
-        ("deep", {"KEEP1": 40, "KEEP2": 20, "KEEPR": 9}),
-        ("kinds", {"KEEP1": 150}),
-        ("pairs", {"KEEP2": 55}),
-        ("threads", {"KEEP1": 250, "KEEP2": 110, "KEEPR": 40}),
-    ],
-    "thorough": [
-        ("loop", {"LOOPN": "{5, 40, 70}"}),
-        ("deep", {"KEEP1": 60, "KEEP2": 28, "KEEPR": 12}),
-        ("kinds", {"KEEP1": 550}),       # KEEP1 = 1000 is the exhaustive product (2.0e5 programs)
-        ("pairs", {"KEEP2": 280}),       # KEEP2 = 1000: 6e5 programs
-        ("threads", {"KEEP1": 300, "KEEP2": 150, "KEEPR": 60}),
-    ],
-}
+ALLK = ["G", "L", "M", "B", "C", "EL", "EP", "EV", "EI", "EH", "EK", "ES", "EM", "S", "PR", "RA", "K", "WL", "WM", "WE"]
+
+
+def kindset(ks):
+    return "{" + ", ".join(f'"{k}"' for k in ks) + "}"
+
+
+def deep_subst(seed, n, keep):
+    """The deep configuration explores, per run, a seeded SUBSET of the holder kinds for the aliases created by
+    the actions (all kinds for the first base): over the seeds / runs every kind is covered."""
+    rnd = random.Random(seed * 7919 + n)
+    k1 = rnd.sample(ALLK, 8)
+    kr = ["L", "M"] + rnd.sample([k for k in ALLK if k not in ("L", "M")], 4)
+    return dict(keep, KINDS1=kindset(k1), KINDSR=kindset(kr))
+
+
+def plan(tier, seed):
+    """(name, cfg, constant overrides); KEEP* are per-mille of the choices kept by the seeded thinning."""
+    if tier == "quick":
+        return [
+            ("loop", "loop", {"LOOPN": "{6, 70}", "LOOPEVERY": "{5, 33}"}),
+            ("deep", "deep", deep_subst(seed, 0, {"KEEP1": 50, "KEEP2": 35, "KEEPR": 20})),
+            ("kinds", "kinds", {"KEEP1": 90}),
+            ("pairs", "pairs", {"KEEP2": 35}),
+            ("bin", "bin", {"KEEP1": 400, "KEEP2": 120, "KEEPR": 70}),
+            ("threads", "threads", {"KEEP1": 200, "KEEP2": 90, "KEEPR": 35}),
+            ("big", "big", {"KEEP1": 150, "KEEP2": 70, "KEEPR": 30}),
+        ]
+    return [
+        ("loop", "loop", {"LOOPN": "{5, 40, 70}"}),
+        ("deep1", "deep", deep_subst(seed, 1, {"KEEP1": 60, "KEEP2": 40, "KEEPR": 22})),
+        ("kinds", "kinds", {"KEEP1": 420}),       # KEEP1 = 1000 is the exhaustive product (2.6e5 programs)
+        ("deep2", "deep", deep_subst(seed, 2, {"KEEP1": 60, "KEEP2": 40, "KEEPR": 22})),
+        ("pairs", "pairs", {"KEEP2": 220}),       # KEEP2 = 1000: 7e5 programs
+        ("deep3", "deep", deep_subst(seed, 3, {"KEEP1": 60, "KEEP2": 40, "KEEPR": 22})),
+        ("bin", "bin", {"KEEP1": 1000, "KEEP2": 200, "KEEPR": 100}),
+        ("threads", "threads", {"KEEP1": 300, "KEEP2": 150, "KEEPR": 60}),
+        ("big", "big", {"KEEP1": 300, "KEEP2": 100, "KEEPR": 40}),
+    ]
+
+
 MAIN_ENVS = ["jit", "nojit"]
 SAMPLE_ENVS = ["inline", "nolift", "inline-nojit"]
-SAMPLE_SIZE = {"quick": 600, "thorough": 5000}
+SAMPLE_SIZE = {"quick": 300, "thorough": 4000}
 
 
 def tlc_producer(tier, seed, work, q):
     """Runs the TLC configurations one after the other (while the main thread replays the previous one)."""
     try:
-        for name, sub in PLAN[tier]:
+        for name, cfgname, sub in plan(tier, seed):
             if os.environ.get("C03_ONLY") and name not in os.environ["C03_ONLY"].split(","):
                 continue
-            cfg = cfg_variant(f"MC_Persist_{name}.cfg", work, dict(sub, SEED=seed), f"{tier}_s{seed}")
+            cfg = cfg_variant(f"MC_Persist_{cfgname}.cfg", work, dict(sub, SEED=seed), f"{name}_{tier}_s{seed}")
             res = vlib.run_tlc("Persist", cfg, os.path.join(work, "tlc_" + name), workers=WORKERS, timeout=900)
             q.put((name, res))
         q.put((None, None))
@@ -626,11 +669,11 @@ def run(tier, seed):
     r = vlib.Result(PROP, tier, seed)
     stats = {"evaluations": {}, "failing": 0, "by_finding": {}, "unreported_violations": 0, "groups": {},
              "cases": {}, "observations": 0}
-    q = queue.Queue()
+    q = queue.Queue(maxsize=2)
     threading.Thread(target=tlc_producer, args=(tier, seed, work, q), daemon=True).start()
     rnd = random.Random(seed)
     seen = set()
-    pool = []          # (case) candidates for the switch sample and the self-test
+    pool = []          # (raw, case) candidates for the switch sample, the top-level rendering and the self-test
     samples = []
     while True:
         name, res = q.get()
@@ -639,12 +682,13 @@ def run(tier, seed):
                 raise res
             break
         r.add_tlc(res)
-        cases = []
+        cases, raws = [], []
         for c in res["cases"]:
             k = to_case(c)
             if k["id"] not in seen:
                 seen.add(k["id"])
                 cases.append(k)
+                raws.append(c)
         res["cases"] = None
         stats["cases"][name] = len(cases)
         stats["observations"] += sum(2 * len(c["steps"][1]["emit"]) for c in cases)
@@ -652,31 +696,48 @@ def run(tier, seed):
             verdicts = vlib.replay([strip(c) for c in cases], work, env_extra=ENVS[env], jobs=12, timeout_ms=10000,
                                    name=f"{name}_{env}")
             judge(r, cases, verdicts, env, stats)
-        keep = rnd.sample(cases, min(len(cases), SAMPLE_SIZE[tier] // 2 + 50))
-        pool += keep
-        for c in keep[:2]:
-            if c.get("_passed"):
+        idx = rnd.sample(range(len(cases)), min(len(cases), SAMPLE_SIZE[tier] // 3 + 20))
+        pool += [(raws[i], cases[i]) for i in idx]
+        for i in idx[:2]:
+            c = cases[i]
+            if c.get("_passed") and len(samples) < 8:
                 samples.append({"id": c["id"], "tag": c["tag"], "define": c["steps"][0]["src"][:1500],
                                 "call": c["steps"][1]["src"][:300], "emit": c["steps"][1]["emit"][:8]})
+        del raws
     if not pool:
         raise vlib.ToolError("no case was generated")
-    sample = rnd.sample(pool, min(len(pool), SAMPLE_SIZE[tier]))
+    picked = rnd.sample(pool, min(len(pool), SAMPLE_SIZE[tier]))
+    sample = [c for _, c in picked]
     for env in SAMPLE_ENVS:
         verdicts = vlib.replay([strip(c) for c in sample], work, env_extra=ENVS[env], jobs=12, timeout_ms=10000,
                                name=f"sample_{env}")
         judge(r, sample, verdicts, env, stats)
-    selftest(r, pool, work)
+    # the same histories as ONE top-level expression instead of a function activation
+    top = []
+    for raw, _ in picked:
+        if raw["fam"] == "alias":
+            k = alias_case(raw, toplevel=True)
+            if k["id"] not in seen:
+                seen.add(k["id"])
+                top.append(k)
+    stats["cases"]["toplevel"] = len(top)
+    for env in MAIN_ENVS:
+        verdicts = vlib.replay([strip(c) for c in top], work, env_extra=ENVS[env], jobs=12, timeout_ms=10000,
+                               name=f"toplevel_{env}")
+        judge(r, top, verdicts, env, stats)
+    selftest(r, sample, work)
     r.cov["samples"] = samples[:8]
     r.cov["rule"] = ("Persist.tla: histories of base / share / upd / upd2 / reobs actions over aliases with a holder kind each "
                      "(kinds: depth 1, every kind x every kind x every operation x every via; pairs: any holder + a moved second "
-                     "reference that is updated; threads: both directions through channels / thread closures; deep: <= 5 actions "
-                     "over two bases, seeded sparse sub-tree) and accumulator loops that keep versions; every alias is observed "
-                     "after every step, the function under test is activated twice; every case is replayed with the JIT on and "
-                     "off, a sample under the inlining / closure-lifting switches.  distinct_nontrivial = distinct programs whose "
+                     "reference that is updated; bin: binary updates of two aliases; threads: both directions through channels / "
+                     "thread closures; big: 70-element values; deep: <= 5 actions over two bases, seeded sparse sub-tree) and "
+                     "accumulator loops that keep and later fork versions; every alias is observed after every step, the function "
+                     "under test is activated twice; every case is replayed with the JIT on and off, a sample under the inlining / "
+                     "closure-lifting switches and as a top-level expression.  distinct_nontrivial = distinct programs whose "
                      "history keeps a second reference to an object alive across an update of it (share, binary update of two "
-                     "aliases, helper that observes its parameter after the update, continuation re-entry) or that are loops "
-                     "keeping old versions.")
-    r.cov["exhaustive"] = tier == "thorough"
+                     "aliases, helper / apply / map that observes its operand after the update, continuation re-entry) or that "
+                     "are loops keeping old versions.")
+    r.cov["exhaustive"] = False
     r.assumptions.append("the in-place decision itself is not observed (it is unobservable by the property's own statement); "
                          "hash maps / sets are observed through sorted entries, lookups, sizes and equal? against a fresh copy")
     summary = {k: v for k, v in stats.items() if k != "groups"}
